@@ -117,7 +117,7 @@ func findCodecs(w *World) []codecInfo {
 				}
 				if sel, ok := c.Fun.(*ast.SelectorExpr); ok {
 					if id, ok := sel.X.(*ast.Ident); ok {
-						if obj, ok := p.TypesInfo.Uses[id].(*types.Var); ok && obj.Parent() == p.Types.Scope() {
+						if obj, ok := p.TypesInfo.Uses[id].(*types.Var); ok && obj.Parent() == p.Types.Scope() && isEncodingObject(obj.Type()) {
 							found = obj
 						}
 					}
@@ -543,6 +543,8 @@ func c08Base85(w *World, r *Report) {
 	enc := substitutions(w, w.SSAFunc(methodOf(n, "Encode")))
 	dec := substitutions(w, w.SSAFunc(methodOf(n, "Decode")))
 	var problems []string
+	problems = append(problems, replacerSubstitutions(w, w.Decl(methodOf(n, "Encode")), enc)...)
+	problems = append(problems, replacerSubstitutions(w, w.Decl(methodOf(n, "Decode")), dec)...)
 	inA85 := func(b int64) bool { return (b >= '!' && b <= 'u') || b == 'z' }
 	for b := int64('!'); b <= 'u'; b++ {
 		if forbiddenDNSByte(byte(b)) {
@@ -693,4 +695,80 @@ func declPos(w *World, fd *ast.FuncDecl) string {
 		return "-"
 	}
 	return w.Pos(fd.Pos())
+}
+
+// isEncodingObject: a package-level object that encodes/decodes (encoding/base32, base64 ... style), as
+// opposed to helpers such as *strings.Replacer or regexps.
+func isEncodingObject(t types.Type) bool {
+	ms := types.NewMethodSet(t)
+	has := func(n string) bool { return ms.Lookup(nil, n) != nil }
+	return (has("EncodeToString") || has("Encode")) && (has("DecodeString") || has("Decode"))
+}
+
+// replacerSubstitutions: byte substitutions applied through a package-level strings.NewReplacer table used in
+// the method body: pairs of one-byte constants extend the map; a pair whose key or value is not exactly one
+// byte long is reported (a two-character key does not substitute the single byte).
+func replacerSubstitutions(w *World, fd *ast.FuncDecl, out map[int64]int64) []string {
+	if fd == nil {
+		return nil
+	}
+	p := w.PkgOfDecl(fd)
+	var problems []string
+	used := map[types.Object]bool{}
+	ast.Inspect(fd.Body, func(x ast.Node) bool {
+		c, ok := x.(*ast.CallExpr)
+		if !ok {
+			return true
+		}
+		sel, ok := c.Fun.(*ast.SelectorExpr)
+		if !ok || (sel.Sel.Name != "Replace" && sel.Sel.Name != "WriteString") {
+			return true
+		}
+		if id, ok := sel.X.(*ast.Ident); ok {
+			if v, ok := p.TypesInfo.Uses[id].(*types.Var); ok && v.Parent() == p.Types.Scope() {
+				used[v] = true
+			}
+		}
+		return true
+	})
+	for _, f := range p.Syntax {
+		for _, d := range f.Decls {
+			gd, ok := d.(*ast.GenDecl)
+			if !ok {
+				continue
+			}
+			for _, sp := range gd.Specs {
+				vs, ok := sp.(*ast.ValueSpec)
+				if !ok {
+					continue
+				}
+				for i, nm := range vs.Names {
+					if !used[p.TypesInfo.Defs[nm]] || i >= len(vs.Values) {
+						continue
+					}
+					call, ok := vs.Values[i].(*ast.CallExpr)
+					if !ok {
+						continue
+					}
+					if se, ok := call.Fun.(*ast.SelectorExpr); !ok || se.Sel.Name != "NewReplacer" {
+						continue
+					}
+					for k := 0; k+1 < len(call.Args); k += 2 {
+						from, to := constVal(p.TypesInfo, call.Args[k]), constVal(p.TypesInfo, call.Args[k+1])
+						if from == nil || to == nil || from.Kind() != constant.String || to.Kind() != constant.String {
+							problems = append(problems, fmt.Sprintf("%s: replacer pair is not a pair of constant strings", w.Pos(call.Args[k].Pos())))
+							continue
+						}
+						fs, ts := constant.StringVal(from), constant.StringVal(to)
+						if len(fs) != 1 || len(ts) != 1 {
+							problems = append(problems, fmt.Sprintf("%s: the replacer pair %q -> %q is not byte-for-byte (%d -> %d bytes): a single %q is not substituted (a raw string `\\\\` is TWO backslashes)", w.Pos(call.Args[k].Pos()), fs, ts, len(fs), len(ts), fs[:1]))
+							continue
+						}
+						out[int64(fs[0])] = int64(ts[0])
+					}
+				}
+			}
+		}
+	}
+	return problems
 }
